@@ -534,13 +534,14 @@ impl Prop for C10 {
         const S0: &str = "{\"ami\":\"আমই\",\"as\":\"আশ\",\"sesh\":\"শেষ\"}";
         let save_faults: Vec<(&str, Option<u64>)> = vec![("file-size-limit-0", Some(0)), ("file-size-limit-10", Some(10)), ("file-size-limit-40", Some(40)), ("user-directory-removed", None), ("user-directory-replaced-by-file", None), ("save-target-is-dev-full-ENOSPC", None)];
         for (name, limit) in &save_faults {
-            for learn in ["tumi", "kotha"] {
+            // (`ami` already has a saved choice: the failed save is then a *change* of that choice)
+            for learn in ["tumi", "kotha", "ami"] {
                 let mine = env.mine(item);
                 item += 1;
                 if !mine {
                     continue;
                 }
-                let case = || json!({"fault": "failed-save", "how": name, "store_before": S0, "word_being_learned": learn});
+                let case = || json!({"fault": "failed-save", "how": name, "store_before": S0, "word_being_learned": learn, "then": "a learning commit of another word (tumi / kotha), which is saved successfully"});
                 out.begin_case(&case);
                 fresh_root(&root);
                 std::fs::write(selection_file(&root), S0).unwrap();
@@ -568,8 +569,13 @@ impl Prop for C10 {
                     _ => set_fsize_limit(*limit),
                 }
                 t.calls += 1;
+                let mut chosen = String::new();
                 let r = match typed {
-                    Ok(Some(s)) if !s.is_lonely() && s.len() > 1 => sess.commit(1),
+                    Ok(Some(s)) if !s.is_lonely() && s.len() > 1 => {
+                        let idx = (s.previously_selected_index() + 1) % s.len();
+                        chosen = s.get_suggestions()[idx].clone();
+                        sess.commit(idx)
+                    }
                     _ => Ok(()),
                 };
                 // remove the fault
@@ -605,6 +611,15 @@ impl Prop for C10 {
                     out.violation("keeps-working", format!("c10:panic@{}:after-failed-save", p.loc), case(), "typing after a failed save".into(), format!("panic at {}", p.loc));
                     continue;
                 }
+                // a later save that succeeds (another word, same context) must write every earlier entry out again
+                match sess.type_text_protocol(if learn == "tumi" { "kotha" } else { "tumi" }) {
+                    Ok(Some(s)) if !s.is_lonely() && s.len() > 1 => {
+                        let _ = sess.commit((s.previously_selected_index() + 1) % s.len());
+                    }
+                    _ => {
+                        let _ = sess.finish();
+                    }
+                }
                 // a new context still pre-selects every earlier entry
                 t.failed_save_checks += 1;
                 let content = std::fs::read(selection_file(&root)).unwrap_or_default();
@@ -616,7 +631,8 @@ impl Prop for C10 {
                                 Ok(Some(s)) => {
                                     let _ = n.finish();
                                     let got = s.get_suggestions().get(s.previously_selected_index()).cloned().unwrap_or_default();
-                                    if got != want {
+                                    // the word whose change of choice failed to be saved may show the old or the new choice
+                                    if got != want && !(w == learn && got == chosen) {
                                         out.violation("failed-save-loses-at-most-one-choice", format!("c10:earlier-entry-lost:{name}"), case(),
                                                       format!("{want:?} still pre-selected for {w:?} by a new context (only the choice being saved may be lost)"), format!("{got:?}; store on disk now: {:?}", String::from_utf8_lossy(&content)));
                                         break;
@@ -643,7 +659,9 @@ impl Prop for C10 {
             ];
             for (name, store, ac) in &states {
                 let mut res: Vec<Option<Vec<String>>> = vec![];
-                for (home, root) in [(true, &home_root), (false, &xdg_root)] {
+                for (home, root) in [(true, &home_root), (false, &xdg_root), (false, &xdg_root)] {
+                    // third round: XDG_DATA_HOME names the directory and HOME is not in the environment at all
+                    let no_home = res.len() == 2;
                     let _ = std::fs::remove_dir_all(root);
                     std::fs::create_dir_all(root).unwrap();
                     if store.is_some() || ac.is_some() {
@@ -655,14 +673,23 @@ impl Prop for C10 {
                     if let Some(b) = ac {
                         std::fs::write(autocorrect_file(root), b).unwrap();
                     }
-                    let case = || json!({"fault": "environment", "user_directory_named_by": if home { "HOME (XDG_DATA_HOME unset)" } else { "XDG_DATA_HOME" }, "state": name});
+                    let case = || json!({"fault": "environment", "user_directory_named_by": if home { "HOME (XDG_DATA_HOME unset)" } else if no_home { "XDG_DATA_HOME (HOME unset)" } else { "XDG_DATA_HOME" }, "state": name});
                     out.begin_case(&case);
                     HOME_ENV.store(home, std::sync::atomic::Ordering::Relaxed);
+                    NO_HOME_ENV.store(no_home, std::sync::atomic::Ordering::Relaxed);
                     let r = battery(root, name, &case, out, &mut t);
                     HOME_ENV.store(false, std::sync::atomic::Ordering::Relaxed);
+                    NO_HOME_ENV.store(false, std::sync::atomic::Ordering::Relaxed);
                     res.push(r);
                 }
                 t.env_states += 1;
+                if let (Some(Some(b)), Some(Some(c))) = (res.get(1), res.get(2)) {
+                    if b != c {
+                        let k = b.iter().zip(c.iter()).position(|(x, y)| x != y).unwrap_or(0);
+                        out.violation("keeps-working", format!("c10:unset-home-differs:{name}"), json!({"fault": "environment", "state": name}),
+                                      format!("{} (XDG_DATA_HOME and HOME set)", b.get(k).cloned().unwrap_or_default()), format!("{} (XDG_DATA_HOME set, HOME unset)", c.get(k).cloned().unwrap_or_default()));
+                    }
+                }
                 if let (Some(Some(a)), Some(Some(b))) = (res.first(), res.get(1)) {
                     if a != b {
                         let k = a.iter().zip(b.iter()).position(|(x, y)| x != y).unwrap_or(0);
